@@ -20,7 +20,17 @@ ASSUMPTIONS = ["filter_/stop are pure predicates on the node (given as label set
 
 
 def mk(tree, filt=None, stop=None, ml=None, embed=False):
-    return {"tree": tree, "filt": filt, "stop": stop, "ml": ml, "embed": embed}
+    mk.counter += 1
+    # every third case runs with ANYTREE_ASSERTIONS=1 (a separate interpreter)
+    return {"tree": tree, "filt": filt, "stop": stop, "ml": ml, "embed": embed, "asrt": mk.counter % 3 == 0}
+
+
+mk.counter = 0
+
+
+def run_impl(cases):
+    from lib import core
+    return core.run_impl_split("C06", cases)
 
 
 def gen_cases(tier, seed):
